@@ -169,7 +169,7 @@ def run_property(prop, units, tier, seed, level='proof', jobs=None, replay_fn=No
         'checker_cmd': 'goto-cc <wrapper TU including the real /repo file> && goto-instrument --dfcc <harness> '
                        '--enforce-contract <f> [--replace-call-with-contract g..] [--loop-contracts-file .. --apply-loop-contracts] '
                        '&& cbmc --bounds-check --pointer-check --pointer-overflow-check --signed-overflow-check '
-                       '--undefined-shift-check --div-by-zero-check --pointer-primitive-check [back end]',
+                       '--undefined-shift-check --div-by-zero-check [back end]',
         'trusted_base': TRUSTED_BASE,
         'functions_under_contract': sorted(fn_under_contract),
         'n_functions_under_contract': len(fn_under_contract),
